@@ -346,6 +346,12 @@ fn check_query(c: &Query, obs: &mut Obs) -> Result<(), String> {
         let mut rev = index_sets[0].clone();
         rev.reverse();
         index_sets.push(rev);
+        // the list as generated: arbitrary order, possibly with repeated indices (the laws speak about
+        // the set of operations, so a repeated index must change nothing)
+        let raw: Vec<usize> = c.indices.iter().cloned().filter(|&i| i <= ds.dim).collect();
+        if raw != index_sets[0] && raw != index_sets[1] {
+            index_sets.push(raw);
+        }
     }
     for idx in &index_sets {
         for seeds in &seed_lists {
@@ -396,7 +402,7 @@ pub fn run(ctx: &mut Ctx) {
     let t = ctx.tier;
     ctx.rule = "every branching assignment (v <= 2, capped per D-set) on every D-set of the brute-force enumeration (dim 1-3) with all non-empty index subsets and all seed lists up to length 2-3 (exhaustive for size <= 4), plus proptest-generated renumbered symbols, random (possibly disconnected) symbols with up to 60 chambers with random index subsets / seed lists, and PartialDSets with removed entries; oracle = own table walk, BFS components and 2-colouring".into();
     ctx.assume("only symbols whose non-adjacent operations commute are compared (the r/v overrides for |i-j| > 1 assume it)");
-    ctx.assume("traversal order is not asserted, only the laws; index lists are duplicate-free subsets of 0..=dim; seeds lie in 1..=size");
+    ctx.assume("traversal order is not asserted, only the laws; index lists are lists over 0..=dim in any order, possibly with repeated entries (the laws are about the set of operations); seeds lie in 1..=size and may repeat");
     ctx.assume("plain D-sets have no v; their m is the documented constant and is only probed for None / no panic");
     crate::props::run_regressions(ctx, "C02");
 
@@ -420,7 +426,7 @@ pub fn run(ctx: &mut Ctx) {
     ctx.layer("random");
     let n = t.pick(20_000u32, 1_500_000u32);
     let q = |s: BoxedStrategy<DS>| {
-        (s, prop::collection::vec(0usize..4, 0..4), prop::collection::vec(1usize..80, 0..5), prop::collection::vec((0usize..4, 0usize..80), 0..3))
+        (s, prop::collection::vec(0usize..4, 0..6), prop::collection::vec(1usize..80, 0..5), prop::collection::vec((0usize..4, 0usize..80), 0..3))
             .prop_map(|(ds, indices, seeds, holes)| {
                 let size = ds.size;
                 let seeds = if indices.is_empty() { vec![] } else { seeds.into_iter().map(|s| 1 + (s - 1) % size).collect() };
